@@ -10,7 +10,7 @@ shrink = G.generic_shrink(replay)
 
 
 def plan(tier, seed):
-    return sweep.plan(tier, seed)
+    return sweep.plan(tier, seed, fuzz_mod=__name__)
 
 
 def run(spec):
